@@ -181,13 +181,15 @@ def _loop_replay():
                     bad.append(("rollout-aux", n, inc))
                 # repeat with a time-varying auxiliary input: consumed in order (the stepper 2u + a is order sensitive)
                 gotr = ex.repeat(step_aux, n, takes_aux=True, constant_aux=False)(u0, aux)
-                if not bool(jnp.all(gotr == cur)):
-                    bad.append(("repeat-aux", n))
+                # shapes are compared first: `==` broadcasts, and a result with a spurious leading axis of length 1
+                # (the whole aux stack handed to the stepper instead of its t-th slice) would otherwise compare equal
+                if jnp.shape(gotr) != jnp.shape(cur) or not bool(jnp.all(gotr == cur)):
+                    bad.append(("repeat-aux", n, tuple(jnp.shape(gotr))))
             got = ex.repeat(step, n)(u0)
             cur = u0
             for _ in range(n):
                 cur = step(cur)
-            if not bool(jnp.all(got == cur)):
+            if jnp.shape(got) != jnp.shape(cur) or not bool(jnp.all(got == cur)):
                 bad.append(("repeat", n))
             # constant auxiliary input, including shapes whose leading axis happens to have length n
             for aux_c in (jnp.arange(6, dtype=jnp.int32).reshape(2, 3) + 7, jnp.arange(3, dtype=jnp.int32) + 5, jnp.int32(4)):
@@ -202,7 +204,7 @@ def _loop_replay():
                     cur = step_aux(cur, aux_c)
                     exp.append(cur)
                 exp = jnp.stack(exp) if exp else jnp.zeros((0, 2, 3), jnp.int32)
-                if got.shape != exp.shape or not bool(jnp.all(got == exp)) or not bool(jnp.all(gotr == cur)):
+                if got.shape != exp.shape or not bool(jnp.all(got == exp)) or jnp.shape(gotr) != jnp.shape(cur) or not bool(jnp.all(gotr == cur)):
                     bad.append(("constant-aux", n, tuple(jnp.shape(aux_c))))
         return {"reproduced": bool(bad), "detail": f"integer bookkeeping stepper: mismatching configurations {bad[:6]}"}
 
